@@ -13,11 +13,14 @@ import (
 	"fmt"
 	"net/http"
 	"net/http/httptest"
+	"strings"
+	"time"
 
 	"github.com/zeromicro/go-zero/core/load"
 	"github.com/zeromicro/go-zero/core/stat"
 	"github.com/zeromicro/go-zero/rest/handler"
 	"github.com/zeromicro/go-zero/verifshim/vlib"
+	"github.com/zeromicro/go-zero/verifshim/vsched"
 	"github.com/zeromicro/go-zero/zrpc/verifc02"
 	"google.golang.org/grpc"
 	"google.golang.org/grpc/codes"
@@ -33,6 +36,14 @@ type countShedder struct {
 	shed   bool
 	allows int
 	p      *countPromise
+}
+
+// resolved: resolutions of the admitted request's promise so far (-1: nothing admitted)
+func (s *countShedder) resolved() int {
+	if s.p == nil {
+		return -1
+	}
+	return s.p.pass + s.p.fail
 }
 
 func (s *countShedder) Allow() (load.Promise, error) {
@@ -51,9 +62,16 @@ type WrapCase struct {
 	Shed    bool   `json:"shed"`
 	Action  string `json:"action"` // see httpActions / grpcActions
 	Code    int    `json:"code,omitempty"`
+	// Real: the wrapper runs on a REAL adaptive shedder handed out by a ShedderGroup (see runRealWrapCase)
+	Real bool `json:"real,omitempty"`
+	Busy bool `json:"busy,omitempty"` // real: 4 requests in flight, moving average 1.85, capacity estimate 1 (else nothing in flight)
+	Over bool `json:"over,omitempty"` // real: the CPU is over the threshold when the request arrives
 }
 
 func (c WrapCase) String() string {
+	if c.Real {
+		return fmt.Sprintf("%s on a real keyed shedder busy=%v cpu-over=%v action=%s code=%d", c.Wrapper, c.Busy, c.Over, c.Action, c.Code)
+	}
 	return fmt.Sprintf("%s shed=%v action=%s code=%d", c.Wrapper, c.Shed, c.Action, c.Code)
 }
 
@@ -63,8 +81,12 @@ var errBiz = errors.New("business error")
 
 // want: "pass" | "fail" | "once" (exactly one resolution, either kind)
 func runWrapCase(c WrapCase) (class, msg string) {
+	if c.Real {
+		return runRealWrapCase(c)
+	}
 	sh := &countShedder{shed: c.Shed}
 	ran := 0
+	early := -1 // resolutions of the promise seen from inside the handler
 	var panicked any
 	want := "pass"
 	switch c.Wrapper {
@@ -72,6 +94,12 @@ func runWrapCase(c WrapCase) (class, msg string) {
 		rec := httptest.NewRecorder()
 		next := http.HandlerFunc(func(w http.ResponseWriter, r *http.Request) {
 			ran++
+			early = sh.resolved()
+			defer func() { // also after the handler's writes, on its way out (return or panic)
+				if n := sh.resolved(); n > early {
+					early = n
+				}
+			}()
 			switch c.Action {
 			case "none":
 			case "write":
@@ -142,6 +170,7 @@ func runWrapCase(c WrapCase) (class, msg string) {
 			defer func() { panicked = recover() }()
 			val, err = ic(context.Background(), "req", &grpc.UnaryServerInfo{FullMethod: "/svc/m"}, func(ctx context.Context, req any) (any, error) {
 				ran++
+				early = sh.resolved()
 				if c.Action == "panic" {
 					panic("boom")
 				}
@@ -176,6 +205,9 @@ func runWrapCase(c WrapCase) (class, msg string) {
 		return "wrapper-" + c.Wrapper + "-handler-runs", fmt.Sprintf("handler ran %d times", ran)
 	}
 	p := sh.p
+	if early != 0 {
+		return "wrapper-" + c.Wrapper + "-resolved-while-handler-runs", fmt.Sprintf("the promise of the admitted request had %d resolutions before the handler was left: the request is not counted as in flight while it is being handled", early)
+	}
 	if p.pass+p.fail != 1 {
 		return fmt.Sprintf("wrapper-%s-resolved-%d-times:%s", c.Wrapper, p.pass+p.fail, c.Action), fmt.Sprintf("promise resolved %d times (Pass %d, Fail %d)", p.pass+p.fail, p.pass, p.fail)
 	}
@@ -222,9 +254,19 @@ func runWrappers(r *vlib.Report) {
 			r.Violation(class, c.String()+": "+msg, c)
 		}
 	}
+	nr := 0
+	for _, c := range realWrapCases() {
+		class, msg := runWrapCase(c)
+		nr++
+		r.Nontrivial("wrapper|" + c.String())
+		if class != "" {
+			r.Violation(class, c.String()+": "+msg, c)
+		}
+	}
+	n += nr
 	r.Eval(n)
 	r.AddTraces(n)
-	r.Scenario("wrappers", map[string]any{"cases": n})
+	r.Scenario("wrappers", map[string]any{"cases": n, "of_which_on_a_real_keyed_shedder": nr})
 	// nil shedder: SheddingHandler must be the identity
 	ran := 0
 	h := handler.SheddingHandler(nil, wrapMetrics)(http.HandlerFunc(func(w http.ResponseWriter, r *http.Request) { ran++ }))
@@ -250,4 +292,214 @@ func replayWrapper(cfg *vlib.Config, r *vlib.Report) {
 	}
 	r.Eval(1)
 	r.Finish()
+}
+
+// ---- the wrappers on a REAL keyed shedder ----
+//
+// One request through SheddingHandler / UnarySheddingInterceptor built on the adaptive shedder a
+// ShedderGroup hands out for a key (window 10 s, 10 buckets: capacity estimate 1 while no pass is in
+// a complete bucket; overload factor pinned to 1), in two states × two CPU answers:
+//   - idle: nothing in flight;  busy: 8 admitted, the 4 oldest failed → 4 in flight, moving average 1.846.
+//
+// The statement decides every combination: busy ∧ CPU over ⇒ shed (both above the capacity
+// estimate); CPU under ⇒ never shed (no earlier Allow saw it over: no cool-off); idle ⇒ never shed.
+// Demanded: shed ⇒ 503 / ResourceExhausted, handler not run, in-flight count unchanged; admitted ⇒
+// handler runs once, the in-flight count seen from inside the handler (on entry and on the way out) is
+// what was in flight before + 1, and after the wrapper returned (or panicked) it is what it was
+// before: the request is in flight exactly while it is being handled, whatever the handler does.
+const (
+	realWindow  = 10 * time.Second
+	realBuckets = 10
+)
+
+func runRealWrapCase(c WrapCase) (class, msg string) {
+	vsched.SetNow(baseClock)
+	over := false
+	load.VerifSetOverloadChecker(func(int64) bool { return over })
+	defer load.VerifSetOverloadChecker(func(int64) bool { return cpuOverNow })
+	threshold := int64(cpuThreshold)
+	if c.Wrapper == "direct" {
+		// the package's OWN CPU check (stat.CpuUsage() >= threshold, real reading) with thresholds for
+		// which the statement fixes the answer whatever the machine does: the reading is never negative,
+		// so it is "at or above" a threshold ≤ 0 at every moment; it never exceeds 981 (cap 1000 per
+		// reading, moving average with integer truncation), so it is below 999 at every moment
+		threshold = int64(c.Code) // (the pre-load below still runs with the injected answer "CPU under")
+	}
+	g := load.NewShedderGroup(load.WithWindow(realWindow), load.WithBuckets(realBuckets), load.WithCpuThreshold(threshold))
+	key := "svc-" + c.Wrapper
+	var pending []load.Promise
+	before := int64(0)
+	if c.Busy {
+		for i := 0; i < 8; i++ {
+			p, err := g.GetShedder(key).Allow()
+			if err != nil {
+				return "sched-shed-cpu-never-over", fmt.Sprintf("pre-load: Allow #%d was shed although the CPU was never over the threshold", i+1)
+			}
+			pending = append(pending, p)
+		}
+		for _, p := range pending[:4] {
+			p.Fail()
+		}
+		pending = pending[4:]
+		before = 4
+	}
+	defer func() {
+		for _, p := range pending {
+			p.Fail()
+		}
+	}()
+	if f := load.VerifFlying(g.GetShedder(key)); f != before {
+		return "flying-leak:Fail", fmt.Sprintf("pre-load: in-flight counter %d, want %d", f, before)
+	}
+	wantShed := c.Busy && c.Over
+	if c.Wrapper == "direct" {
+		load.VerifRestoreOverloadChecker()
+		p, err := g.GetShedder(key).Allow()
+		if err == nil {
+			pending = append(pending, p)
+		}
+		after := load.VerifFlying(g.GetShedder(key))
+		switch {
+		case err != nil && !errors.Is(err, load.ErrServiceOverloaded):
+			return "allow-unknown-error", fmt.Sprintf("Allow returned error %v", err)
+		case err != nil && !c.Busy:
+			return "shed-with-nothing-in-flight", fmt.Sprintf("package's own CPU check, threshold %d: Allow was shed with no admitted-but-unfinished request", threshold)
+		case err != nil && !c.Over:
+			return "default-cpu-check-shed-cpu-under", fmt.Sprintf("package's own CPU check: Allow was shed with the CPU threshold at %d, which no CPU reading reaches (readings are capped at 1000 and averaged: at most 981; now %d), and no Allow ever saw the CPU over it", threshold, stat.CpuUsage())
+		case err == nil && wantShed:
+			return "default-cpu-check-no-shed-over-capacity:empty-window", fmt.Sprintf("package's own CPU check: Allow was admitted although the CPU reading (%d, never negative) is at or above the threshold %d, and 4 in flight and moving average 1.846 both exceed the capacity estimate 1 (no pass in the window)", stat.CpuUsage(), threshold)
+		case err != nil && after != before:
+			return "flying-leak:Allow", fmt.Sprintf("a shed Allow changed the in-flight counter from %d to %d", before, after)
+		case err == nil && after != before+1:
+			return "flying-undercount:Allow", fmt.Sprintf("an admitted Allow changed the in-flight counter from %d to %d", before, after)
+		}
+		return "", ""
+	}
+	ran := 0
+	inside := []int64{}
+	see := func() { inside = append(inside, load.VerifFlying(g.GetShedder(key))) }
+	var panicked any
+	shedSeen := false
+	over = c.Over
+	switch c.Wrapper {
+	case "http":
+		rec := httptest.NewRecorder()
+		next := http.HandlerFunc(func(w http.ResponseWriter, r *http.Request) {
+			ran++
+			see()
+			defer see()
+			switch c.Action {
+			case "none":
+			case "write":
+				w.Write([]byte("body"))
+			case "status":
+				w.WriteHeader(c.Code)
+			case "status+write":
+				w.WriteHeader(c.Code)
+				w.Write([]byte("body"))
+			case "status+panic":
+				w.WriteHeader(c.Code)
+				panic("boom")
+			case "panic":
+				panic("boom")
+			}
+		})
+		h := handler.SheddingHandler(g.GetShedder(key), wrapMetrics)(next)
+		func() {
+			defer func() { panicked = recover() }()
+			h.ServeHTTP(rec, httptest.NewRequest(http.MethodGet, "/x", nil))
+		}()
+		shedSeen = ran == 0 && rec.Code == http.StatusServiceUnavailable
+		if ran == 0 && !shedSeen {
+			return "wrapper-http-shed-status", fmt.Sprintf("the handler did not run and the client saw status %d, want 503", rec.Code)
+		}
+	case "grpc":
+		var herr error
+		switch c.Action {
+		case "nil":
+		case "error":
+			herr = errBiz
+		case "deadline":
+			herr = context.DeadlineExceeded
+		case "status":
+			herr = status.Error(codes.Code(c.Code), "m")
+		}
+		ic := verifc02.UnarySheddingInterceptor(g.GetShedder(key), wrapMetrics)
+		var err error
+		func() {
+			defer func() { panicked = recover() }()
+			_, err = ic(context.Background(), "req", &grpc.UnaryServerInfo{FullMethod: "/svc/m"}, func(ctx context.Context, req any) (any, error) {
+				ran++
+				see()
+				defer see()
+				if c.Action == "panic" {
+					panic("boom")
+				}
+				return "resp", herr
+			})
+		}()
+		shedSeen = ran == 0 && status.Code(err) == codes.ResourceExhausted
+		if ran == 0 && !shedSeen {
+			return "wrapper-grpc-shed-code", fmt.Sprintf("the handler did not run and the caller got %v, want codes.ResourceExhausted", err)
+		}
+	}
+	over = false
+	after := load.VerifFlying(g.GetShedder(key))
+	w := c.Wrapper
+	switch {
+	case shedSeen && !wantShed && !c.Over:
+		return "wrapper-real-" + w + "-shed-cpu-never-over", fmt.Sprintf("the request was shed although no Allow ever saw the CPU over the threshold (%d in flight)", before)
+	case shedSeen && !wantShed:
+		return "wrapper-real-" + w + "-shed-with-nothing-in-flight", "the request was shed with no admitted-but-unfinished request"
+	case !shedSeen && wantShed:
+		return "wrapper-real-" + w + "-no-shed-over-capacity:empty-window", fmt.Sprintf("the request was admitted although the CPU is over the threshold, %d in flight and moving average 1.846 both exceed the capacity estimate 1 (no pass in the window)", before)
+	case ran > 1:
+		return "wrapper-" + w + "-handler-runs", fmt.Sprintf("handler ran %d times", ran)
+	}
+	if !shedSeen {
+		for i, f := range inside {
+			if f != before+1 {
+				return "wrapper-real-" + w + "-not-in-flight-while-handled", fmt.Sprintf("inside the handler (%s) the in-flight counter is %d; %d were in flight before this request was admitted, so %d are unfinished", []string{"on entry", "on the way out"}[i%2], f, before, before+1)
+			}
+		}
+		if panicked == nil && strings.Contains(c.Action, "panic") {
+			return "wrapper-" + w + "-panic-swallowed", "the handler's panic did not propagate through the wrapper"
+		}
+	}
+	if after != before {
+		cls := "wrapper-real-" + w + "-flying-leak:" + c.Action
+		if after < before {
+			cls = "wrapper-real-" + w + "-flying-undercount:" + c.Action
+		}
+		return cls, fmt.Sprintf("after the wrapper returned the in-flight counter is %d, but %d admitted requests are unfinished (shed=%v)", after, before, shedSeen)
+	}
+	return "", ""
+}
+
+func realWrapCases() []WrapCase {
+	var cs []WrapCase
+	for _, busy := range []bool{false, true} {
+		for _, over := range []bool{false, true} {
+			for _, a := range []string{"none", "write", "panic"} {
+				cs = append(cs, WrapCase{Kind: "wrapper", Wrapper: "http", Real: true, Busy: busy, Over: over, Action: a})
+			}
+			for _, code := range []int{200, 404, 500, 503} {
+				for _, a := range []string{"status", "status+write", "status+panic"} {
+					cs = append(cs, WrapCase{Kind: "wrapper", Wrapper: "http", Real: true, Busy: busy, Over: over, Action: a, Code: code})
+				}
+			}
+			for _, a := range []string{"nil", "error", "deadline", "panic"} {
+				cs = append(cs, WrapCase{Kind: "wrapper", Wrapper: "grpc", Real: true, Busy: busy, Over: over, Action: a})
+			}
+			for _, code := range []int{int(codes.Canceled), int(codes.DeadlineExceeded), int(codes.ResourceExhausted), int(codes.Unavailable)} {
+				cs = append(cs, WrapCase{Kind: "wrapper", Wrapper: "grpc", Real: true, Busy: busy, Over: over, Action: "status", Code: code})
+			}
+		}
+	}
+	for _, busy := range []bool{false, true} {
+		for _, th := range []int{cpuThresholdDeep, 0, cpuThreshold} {
+			cs = append(cs, WrapCase{Kind: "wrapper", Wrapper: "direct", Real: true, Busy: busy, Over: th <= 0, Action: "package-cpu-check", Code: th})
+		}
+	}
+	return cs
 }
